@@ -214,6 +214,19 @@ where
     Ok(size)
 }
 
+#[cfg(feature = "verif-hooks")]
+impl Encoder {
+    /// An encoder over a table configured by the harness.
+    pub fn verif_with_table(table: DynamicTable) -> Encoder {
+        Encoder { table }
+    }
+
+    /// Canonical rendering of the complete table state.
+    pub fn verif_digest(&self) -> String {
+        self.table.verif_digest()
+    }
+}
+
 #[cfg(test)]
 impl From<DynamicTable> for Encoder {
     fn from(table: DynamicTable) -> Encoder {
